@@ -17,6 +17,7 @@ pub mod c16;
 pub mod c17;
 pub mod c18;
 pub mod c19;
+pub mod c20;
 
 use crate::report::{PropSpec, Report, RunCfg};
 
@@ -41,6 +42,7 @@ pub fn lookup(id: &str) -> Option<(&'static PropSpec, fn(&RunCfg) -> Report)> {
         "C17" => (&c17::SPEC, c17::run as fn(&RunCfg) -> Report),
         "C18" => (&c18::SPEC, c18::run as fn(&RunCfg) -> Report),
         "C19" => (&c19::SPEC, c19::run as fn(&RunCfg) -> Report),
+        "C20" => (&c20::SPEC, c20::run as fn(&RunCfg) -> Report),
         _ => return None,
     })
 }
